@@ -60,6 +60,7 @@ C16Step(pre, ev) ==
                           ELSE IF "unsupported" \in DOMAIN ev THEN TRUE
                           ELSE Same2(ev.obs, ev.obs2) /\ FullState(ev.obs) = FullState(pre)
     [] ev.op = "both" -> ev.ret2 = ev.ret /\ Same2(ev.obs, ev.obs2)
+                         /\ (IF "cb2" \in DOMAIN ev /\ "cb" \in DOMAIN ev THEN ev.cb2 = ev.cb ELSE TRUE)   \* the clone notifies like the original
     [] ev.op \in {"clone_only", "clone_dropped"} -> FullState(ev.obs) = FullState(pre)
     [] OTHER -> TRUE
 
